@@ -1,0 +1,34 @@
+//go:build verif
+
+package log
+
+// Contracts for /verif (contract-based deductive verification of this package).
+// Comment-only file: only the lines starting with "//@" are read, by /verif/bin/govc.
+
+// the name field of a transfer-log record: everything before the first separator
+//@ spec namefield(l string) string = substr(l, 0, indexof(l, ":"))
+
+//@ func (*rollingFile).getPath trusted
+//@   modifies nothing
+
+// ---------------------------------------------------------------- day files of a window (C18)
+
+// the handler is run in the context of each (an arbitrary invocation per iteration)
+//@ func (*rollingFile).each
+//@   on return assert empty-window-opens-nothing: old(start) != 0 && old(stop) != 0 && old(start) == old(stop) ==> !result && !called(handler)
+//@   on return assert forward-window-is-walked-to-its-end: !result && start != stop && offset > 0 ==> called(handler) && lastarg((*rollingFile).getPath, 1) > stop
+//@   on return assert backward-window-is-walked-to-its-end: !result && start != stop && offset < 0 ==> called(handler) && lastarg((*rollingFile).getPath, 1) < stop
+//@   on return assert stops-when-found: result == (called(handler) && lastret(handler, 0))
+//@   before call handler assert opens-the-day-file-of-the-cursor: arg0 == lastret((*rollingFile).getPath, 0) && lastarg((*rollingFile).getPath, 1) == start && lastarg((*rollingFile).getPath, 0) == rf
+//@   loop 0 backedge assert advances-one-day: start == athead(start) + offset && called(handler) && !lastret(handler, 0) && (offset == 86400000000000 || offset == -86400000000000) && (offset > 0 ==> athead(start) <= stop) && (offset < 0 ==> athead(start) >= stop)
+
+// ---------------------------------------------------------------- look-up of a record (C18)
+
+// the handler given to eachLine: a line answers yes only if it is a record of exactly that name (the
+// name is followed by the separator) and carries the other patterns (":hash:") behind the name
+//@ func (*rollingFile).search$1
+//@   requires len(text) >= 1
+//@   on return assert yes-needs-exact-record: r0 ==> hasprefix(line, text[0] + ":") && forall(k, 1, len(text), contains(line, text[k]))
+//@   on return assert name-field-is-the-name: r0 && !contains(text[0], ":") ==> namefield(line) == text[0]
+//@   on return assert exact-record-gives-yes: hasprefix(line, text[0] + ":") && forall(k, 1, len(text), contains(substr(line, len(text[0]), len(line)), text[k])) ==> r0
+//@   loop 0 invariant -1 <= rangeindex && forall(k, 1, rangeindex + 2, contains(substr(line, len(text[0]), len(line)), text[k]))
